@@ -46,9 +46,20 @@ Ltac inv_auto :=
          | H : negb _ = true |- _ => apply negb_true_iff in H
          end.
 
+Ltac simp_hyps :=
+  repeat match goal with
+         | H : ?x = ?x -> _ |- _ => specialize (H eq_refl)
+         | H : ?x = ?x |- _ => clear H
+         | H : _ /\ _ |- _ => destruct H
+         | H : ?a = ?b -> _ |- _ => let N := fresh in assert (N : a <> b) by discriminate; clear N; clear H
+         | H : ?a <> ?a -> _ |- _ => clear H
+         | H : ?a <> ?b |- _ => let N := fresh in assert (N : a <> b) by discriminate; clear N; clear H
+         end.
+
 Ltac mk_inv :=
+  simp_hyps; subst;
   constructor; unfold has_out, finished_ok; cbn; intros;
-  try discriminate; try congruence; try tauto; auto; try solve [intuition congruence];
+  try discriminate; try congruence; try assumption; try solve [intuition congruence];
   try match goal with
       | Hr : (forall o : outcome, _ -> _), H : _ = CRet _ \/ _ |- _ =>
           pose proof (Hr _ H); try solve [intuition congruence]
@@ -355,3 +366,30 @@ Example disciplined_orders :
   filter notify_before_start wf_orders
   = [ [ANotify; AStart; AWritePid; ASpawnWait; ASelect]; [ANotify; AStart; ASpawnWait; AWritePid; ASelect] ].
 Proof. vm_compute. reflexivity. Qed.
+
+(** a skipping run is a run of the schedule without the disabled steps *)
+Lemma run_skip_run : forall acts delay ls s,
+  exists ls', run acts delay s ls' = Some (run_skip acts delay s ls).
+Proof.
+  intros acts delay. induction ls as [|l r IH]; intro s; cbn.
+  - exists []. reflexivity.
+  - destruct (step acts delay s l) as [s1|] eqn:E.
+    + destruct (IH s1) as [ls' H]. exists (l :: ls'). cbn. rewrite E. exact H.
+    + apply IH.
+Qed.
+
+(** the discipline is necessary as well: every well-formed order that starts the daemon before the
+    handler is installed has a schedule on which Launch fails while the daemon runs *)
+Lemma discipline_necessary : forall acts,
+  well_formed acts = true -> notify_before_start acts = false ->
+  exists sched s, run acts 0 init sched = Some s /\ terminated s = true /\
+                  result s = Some (Failed ErrRun) /\ dalive s = true /\ done s = true.
+Proof.
+  intros acts Hw Hn. apply well_formed_orders in Hw. cbn in Hw.
+  destruct (run_skip_run acts 0 (sched_daemon_first acts 0) init) as [ls' Hrun].
+  exists ls', (run_skip acts 0 init (sched_daemon_first acts 0)). split; [exact Hrun|].
+  clear Hrun.
+  repeat (destruct Hw as [Hw|Hw];
+          [subst; first [discriminate Hn|repeat split; vm_compute; reflexivity]|]).
+  destruct Hw.
+Qed.
